@@ -80,6 +80,7 @@ pub fn model(tier: Tier) -> Hist {
     world::edit_account(&mut r4, &w.users[0].account, |a| a.account_flags |= marginfi_type_crate::types::ACCOUNT_DISABLED);
     roots.push(("F4".to_string(), mk(r4)));
     let mut alpha = Alphabet::standard(vec![0, 1], if tier == Tier::Quick { vec![0, 1, 2, 3] } else { vec![0, 1, 2, 3, 4] });
+    alpha.receivership = true;
     alpha.accrue = false;
     alpha.collect = false;
     alpha.bankruptcy = false;
